@@ -52,6 +52,27 @@ func c06pipe() (*c06end, *c06end) {
 		&c06end{b, protoio.NewDelimitedReader(b, 2048), protoio.NewDelimitedWriter(b)}
 }
 
+// a transport that hands over at most n bytes per Read (a frame split across segments)
+type c06chunked struct {
+	net.Conn
+	n int
+}
+
+func (c c06chunked) Read(p []byte) (int, error) {
+	if len(p) > c.n {
+		p = p[:c.n]
+	}
+	return c.Conn.Read(p)
+}
+
+func c06pipeChunked(n int) (*c06end, *c06end) {
+	a, b := net.Pipe()
+	_ = a.SetDeadline(time.Now().Add(5 * time.Second))
+	_ = b.SetDeadline(time.Now().Add(5 * time.Second))
+	return &c06end{a, protoio.NewDelimitedReader(c06chunked{a, n}, 2048), protoio.NewDelimitedWriter(a)},
+		&c06end{b, protoio.NewDelimitedReader(c06chunked{b, n}, 2048), protoio.NewDelimitedWriter(b)}
+}
+
 type c06resp struct {
 	pk  p2pcrypto.PubKey
 	err error
@@ -149,6 +170,22 @@ func TestVerifC06(t *testing.T) {
 				ok, sig, note = false, "handshake succeeds although the requester targeted another account", ""
 			}
 			emit("honest", fmt.Sprintf("CHonest %s 1001 %d %d 1002 %d %s %s", chk, a, tid, b, vharness.Bool(qerr == nil), optN(res.pk, ids)), ok, sig, note)
+		}
+
+		// ---- honest run over a transport that delivers every frame in pieces ----
+		for _, n := range []int{1, 3, 16, 40} {
+			e1, e2 := c06pipeChunked(n)
+			rc := c06startResponder(B, e2)
+			qc := c06startRequester(A, B.GetPublic(), e1)
+			qerr := <-qc
+			res := <-rc
+			e1.conn.Close()
+			a, b := fresh(), fresh()
+			ok, sig, note := true, "", ""
+			if qerr != nil || res.pk == nil || !res.pk.Equals(A.GetPublic()) {
+				ok, sig, note = false, "honest handshake does not complete", fmt.Sprintf("transport hands over at most %d bytes per read: requester err=%v responder err=%v", n, qerr, res.err)
+			}
+			emit("honest", fmt.Sprintf("CHonest %s 1001 %d 1002 1002 %d %s %s", chk, a, b, vharness.Bool(qerr == nil), optN(res.pk, ids)), ok, sig, note)
 		}
 
 		// ---- record an honest session A -> B (frames on the wire) for replays ----
